@@ -122,3 +122,16 @@ var specConnectFlags = map[string]int64{
 
 // properties the specification defines as a byte restricted to 0 and 1 (booleans)
 var specBoolProps = map[int64]bool{0x01: true, 0x17: true, 0x19: true, 0x25: true, 0x28: true, 0x29: true, 0x2A: true}
+
+// reason codes and the packets in which each may appear (MQTT v5.0 §2.4, table 2-6)
+var specReasonCodes = map[string][]int64{
+	"ConnAck":    {0x00, 0x80, 0x81, 0x82, 0x83, 0x84, 0x85, 0x86, 0x87, 0x88, 0x89, 0x8A, 0x8C, 0x90, 0x95, 0x97, 0x99, 0x9A, 0x9B, 0x9C, 0x9D, 0x9F},
+	"PubAck":     {0x00, 0x10, 0x80, 0x83, 0x87, 0x90, 0x91, 0x97, 0x99},
+	"PubRec":     {0x00, 0x10, 0x80, 0x83, 0x87, 0x90, 0x91, 0x97, 0x99},
+	"PubRel":     {0x00, 0x92},
+	"PubComp":    {0x00, 0x92},
+	"SubAck":     {0x00, 0x01, 0x02, 0x80, 0x83, 0x87, 0x8F, 0x91, 0x97, 0x9E, 0xA1, 0xA2},
+	"UnsubAck":   {0x00, 0x11, 0x80, 0x83, 0x87, 0x8F, 0x91},
+	"Disconnect": {0x00, 0x04, 0x80, 0x81, 0x82, 0x83, 0x87, 0x89, 0x8B, 0x8D, 0x8E, 0x8F, 0x90, 0x93, 0x94, 0x95, 0x96, 0x97, 0x98, 0x99, 0x9A, 0x9B, 0x9C, 0x9D, 0x9E, 0x9F, 0xA0, 0xA1, 0xA2},
+	"Auth":       {0x00, 0x18, 0x19},
+}
